@@ -454,8 +454,34 @@ def rule_size_line(ctx):
     ctx.check(radix == "16", R, "radix-16", "the chunk size is parsed as hexadecimal", loc=body_loc(rs), detail=radix)
     ctx.check(semi, R, "extension-cut", "the size is cut at the first ';' (chunk extension)", loc=body_loc(rs))
     I = _mk(prog)
-    I.run(rs, [ref(D), ref(SRC), ref(POS)], _init("Size"))
+    outs = I.run(rs, [ref(D), ref(SRC), ref(POS)], _init("Size"))
     _report_obligations(ctx, R, I, "Dechunker::read_size")
+    # every rejection of a size line has a cause the grammar knows: the finder's line is too long, the text is not
+    # UTF-8 (std's from_utf8 failed) or not a hexadecimal number (std's from_str_radix failed) - nothing else may refuse
+    bad = []
+    nerr = 0
+    for o in outs:
+        if o.kind != "return":
+            continue
+        rs_ = shape(o.ret)
+        if not rs_.startswith("Err("):
+            continue
+        nerr += 1
+        failed = set()
+        for k, c in o.state.facts.items():
+            if k[0] == "discr" and c[0] == "var" and c[1] == frozenset(["Err"]):
+                txt = repr(k[1])
+                for fn in ("from_utf8", "from_str_radix"):
+                    if fn in txt:
+                        failed.add(fn)
+        too_long = any(k[0] == "lt" and c == ("bool", True) and k[1][0] == "int" and "find_crlf" in repr(k[2])
+                       for k, c in o.state.facts.items())
+        if not (failed or too_long):
+            bad.append("%s is returned on a path where neither from_utf8 nor from_str_radix failed and the line is not over-long" % rs_[:40])
+    ctx.check(nerr >= 1 and not bad, R, "rejection-causes",
+              "a chunk-size line is refused only when it is over-long, not UTF-8 (from_utf8 failed) or not hexadecimal (from_str_radix "
+              "failed): no further validation stands between the line and std's parser (%d refusing paths)" % nerr,
+              loc=body_loc(rs), detail=sorted(set(bad))[:3])
 
 
 def _idx_norm(l):
